@@ -61,6 +61,12 @@ class VecMachine(Machine):
             o = self.ev(e['obj'])
             if isinstance(o, (Pair, Pat)):
                 return getattr(o, e['m'])
+        if k == 'Index':
+            b = self.ev(e.get('b') if 'b' in e else e.get('base'))
+            if isinstance(b, It):
+                return b.vec.items[b.i + int(self.ev(e['i']))]
+            if isinstance(b, Vec):
+                return b.items[int(self.ev(e['i']))]
         if k == 'Un' and e['op'] == '*':
             v = self.ev(e['e'])
             if isinstance(v, It):
@@ -148,6 +154,15 @@ class VecMachine(Machine):
                     o.items.append(self.ev(c['args'][0]))
                     return 0
                 if n == 'reserve':
+                    return 0
+                if n in ('back', 'front'):
+                    if not o.items:
+                        raise Unsupported('%s() of an empty vector' % n)
+                    return o.items[-1 if n == 'back' else 0]
+                if n == 'pop_back':
+                    if not o.items:
+                        raise Unsupported('pop_back of an empty vector')
+                    o.items.pop()
                     return 0
             return NotImplemented
         if k == 'Call' and c.get('fn'):
